@@ -429,6 +429,11 @@ def apply_overrides(w, ov):
             w.dividends.pop(sid, None)
     for sid in set(list(ov.get('splits', {})) + list(ov.get('dividends', {}))):
         w.exfac[sid] = consistent_exfac(w, sid)
+    for sid, vol in ov.get('volume', {}).items():      # every bar of the instrument gets this volume (turnover rescaled: same vwap)
+        for b in w.stock_bars.get(sid, []):
+            if b['volume']:
+                b['total_turnover'] = b['total_turnover'] / b['volume'] * vol
+                b['volume'] = float(vol)
     return w
 
 
